@@ -994,21 +994,21 @@ func sweepSessionSizes(ss int, a *attackSession) [2][]int {
 // is corrupted in exactly one byte; the gmtls server is the receiver.
 // Enumerated: run k -> (mode, padding length, corrupted position).
 
-var padAttackReach = []string{"pad-valid-delivered", "pad>=128-accepted", "pad-255-accepted", "bad-padding-byte-rejected", "bad-mac-rejected"}
+var padAttackReach = []string{"pad-valid-delivered", "pad>=128-accepted", "pad-255-accepted", "bad-padding-byte-rejected", "bad-mac-rejected", "protected-unexpected-type-ends-the-connection"}
 
 func init() {
-	register(Family{Name: "tls-record-padding", Prop: "C07", ID: 703, Weight: 1, FaultNames: []string{"padding-length", "bad-padding-byte", "bad-mac"}, ReachNames: padAttackReach, Run: runRecordPadding, Enum: padEnum})
+	register(Family{Name: "tls-record-padding", Prop: "C07", ID: 703, Weight: 1, FaultNames: []string{"padding-length", "bad-padding-byte", "bad-mac", "protected-unexpected-record-type"}, ReachNames: padAttackReach, Run: runRecordPadding, Enum: padEnum})
 }
 
 func padEnum(seed uint64, k uint64) []uint32 {
-	// [session seed, mode (0 valid,1 bad pad byte,2 bad mac), pad length, position]
-	return []uint32{uint32(simkit.Mix(seed, 703, k/2048) % (1 << 30)), uint32((k / 256) % 3), uint32(k % 256), uint32((k / 768) % 256)}
+	// [session seed, mode (0 valid,1 bad pad byte,2 bad mac,3 protected record of an unexpected type), pad length, position]
+	return []uint32{uint32(simkit.Mix(seed, 703, k/2048) % (1 << 30)), uint32((k / 256) % 4), uint32(k % 256), uint32((k / 1024) % 256)}
 }
 
 func runRecordPadding(c *simkit.Choice, r *simkit.Rec) {
 	pki.Load()
 	ss := c.Choose(1<<30, simkit.LScen)
-	mode := c.Choose(3, simkit.LFault)
+	mode := c.Choose(4, simkit.LFault)
 	padLen := c.Choose(256, simkit.LFault)
 	pos := c.Choose(256, simkit.LFault)
 	inner := simkit.NewChoice(uint64(ss)*40503 + 3)
@@ -1071,7 +1071,23 @@ func runRecordPadding(c *simkit.Choice, r *simkit.Rec) {
 		case 2:
 			o.BadMAC = true
 		}
-		pc.WriteRecordOpts(reftls.RecApp, payload, o)
+		if mode == 3 {
+			// a correctly protected record that has no business in the middle of
+			// application data (only a key holder can produce it): a renegotiation
+			// attempt or a stray ChangeCipherSpec. The connection must end there.
+			switch pos % 4 {
+			case 0:
+				pc.WriteRecordOpts(reftls.RecHandshake, reftls.Handshake(reftls.HsHelloRequest, nil), o)
+			case 1:
+				pc.WriteRecordOpts(reftls.RecHandshake, reftls.Handshake(reftls.HsClientHello, res.CH.Marshal()), o)
+			case 2:
+				pc.WriteRecordOpts(reftls.RecHandshake, reftls.Handshake(reftls.HsFinished, payload[:12%len(payload)+1]), o)
+			case 3:
+				pc.WriteRecordOpts(reftls.RecCCS, []byte{1}, o)
+			}
+		} else {
+			pc.WriteRecordOpts(reftls.RecApp, payload, o)
+		}
 		pc.WriteRecord(reftls.RecApp, []byte("tail"))
 		pc.CloseNotify()
 		for {
@@ -1087,7 +1103,7 @@ func runRecordPadding(c *simkit.Choice, r *simkit.Rec) {
 	r.Nontrivial = true
 	r.Config = fmt.Sprintf("padding/mode%d", mode)
 	r.Sig(uint64(mode)<<16 | uint64(padLen)<<8 | uint64(pos))
-	r.Detail = map[string]interface{}{"session_seed": ss, "mode": []string{"valid-padding", "one-padding-byte-corrupted", "mac-corrupted"}[mode], "requested_pad_len": padLen, "position": pos, "payload": n, "server_read": len(got), "server_err": errStr(rerr)}
+	r.Detail = map[string]interface{}{"session_seed": ss, "mode": []string{"valid-padding", "one-padding-byte-corrupted", "mac-corrupted", "protected-record-of-unexpected-type"}[mode], "requested_pad_len": padLen, "position": pos, "payload": n, "server_read": len(got), "server_err": errStr(rerr)}
 	s.TaskPanics(r)
 	if r.Violation() != nil || r.HarnessErr != "" {
 		return
@@ -1153,14 +1169,17 @@ func runRecordPadding(c *simkit.Choice, r *simkit.Rec) {
 			r.Violate("error-not-sticky", site, "data delivered after the fatal error")
 			return
 		}
-		if !fatal {
+		if !fatal && mode != 3 {
 			r.Violate("no-fatal-alert", site, fmt.Sprintf("record rejected (%v) without a fatal alert", rerr))
 			return
 		}
-		if mode == 1 {
+		switch mode {
+		case 1:
 			r.Reach(idx(padAttackReach, "bad-padding-byte-rejected"))
-		} else {
+		case 2:
 			r.Reach(idx(padAttackReach, "bad-mac-rejected"))
+		default:
+			r.Reach(idx(padAttackReach, "protected-unexpected-type-ends-the-connection"))
 		}
 		r.Outcome = "rejected-with-alert"
 	}
